@@ -652,7 +652,14 @@ class Message:
 
                 # FIXME: This sounds like it should be part of
                 # hpostportjoin/-split
-                escaped_host = quote_nonascii(host)
+                if refmsg.opt.uri_host and not (
+                    host.startswith("[") and host.endswith("]")
+                ):
+                    # A reg-name from the option: anything that would be
+                    # mistaken for URI syntax needs to be escaped
+                    escaped_host = _quote_for_host(host)
+                else:
+                    escaped_host = quote_nonascii(host)
 
                 # FIXME: "If host is not valid reg-name / IP-literal / IPv4address,
                 # fail"
@@ -884,6 +891,7 @@ class UndecidedRemote(
 
 _ascii_lowercase = str.maketrans(string.ascii_uppercase, string.ascii_lowercase)
 
+_quote_for_host = quote_factory(unreserved + sub_delims)
 _quote_for_path = quote_factory(unreserved + sub_delims + ":@")
 _quote_for_query = quote_factory(
     unreserved + "".join(c for c in sub_delims if c != "&") + ":@/?"
